@@ -467,7 +467,7 @@ def gen_c20(ctx, n):
         nq = 0
         if cands and rng.random() < 0.7:
             q = rng.choice(cands)
-            ops.append([6, q, 0])
+            ops.append([6, q, rng.choice([0, 0, 1])])      # converge=True: keep reasoning after the query is proved -- inside the source's sub-graph
             ops.append([5, rng.choice([-1, q]), 30])
             nq = len(ops)
             for _r in range(4):
